@@ -165,6 +165,9 @@ fn common_probes(a: &Analysis, v: &mut Verdict) {
     v.probe("fault.cancel_calls", count_ops(&|o| matches!(o, Op::Cancel { .. })));
     v.probe("fault.unwind_through_scope", count_ops(&|o| matches!(o, Op::UnwindScope { .. })));
     v.probe("fault.reporter_replaced", count_ops(&|o| matches!(o, Op::ReplaceReporter { .. })));
+    v.probe("fault.span_released_by_unwinding_frame", count_ops(&|o| matches!(o, Op::Finish { unwind: true, .. })));
+    v.probe("fault.poll_body_panics", count_ops(&|o| matches!(o, Op::BodyPanic)));
+    v.probe("fault.checked_build_runs", a.case.checked as u64);
     v.probe("swarm_runs", crate::gen::is_swarm(a.case.seed) as u64);
     v.probe("fault.user_code_panics_inside_call", count_ops(&|o| matches!(o, Op::UserPanic { .. })));
     v.probe("prepared_events_recorded_later", count_ops(&|o| matches!(o, Op::AddEventFrom { .. })));
